@@ -17,6 +17,8 @@ Heavy == (IF IOEnv.VERIF_C11 = "1" THEN {"C11"} ELSE {})
 Soft == {"C19.right_maximal", "C19.left_maximal", "C19.run_literals",
          "C12.match_longest", "C12.literal_justified", "C11.cost_optimal"}
 
+MaxHard == 3   \* failing events recorded per trace before the rest is skipped
+
 VARIABLES l, st, bad, tid
 vars == <<l, st, bad, tid>>
 
@@ -37,7 +39,7 @@ TraceNext ==
      THEN /\ tid' = e.tid
           /\ st' = PInit(e.c)
           /\ bad' = 0
-     ELSE IF bad # 0 \/ e.op = "end"
+     ELSE IF bad >= MaxHard \/ e.op = "end"
      THEN UNCHANGED <<tid, st, bad>>
      ELSE LET why == PWhy(st, e, Heavy) IN
           IF why = {}
@@ -47,12 +49,16 @@ TraceNext ==
           THEN /\ st' = PEff(st, e)
                /\ UNCHANGED <<tid, bad>>
                /\ TLCSet(1, Append(TLCGet(1), [tid |-> tid, line |-> l, why |-> why]))
-          ELSE /\ bad' = l
-               /\ UNCHANGED <<tid, st>>
+          ELSE \* a hard rule failed: record it; keep validating the rest of the
+               \* trace from the state the event claims, as long as that state is sane
                /\ TLCSet(1, Append(TLCGet(1), [tid |-> tid, line |-> l, why |-> why]))
+               /\ UNCHANGED tid
+               /\ IF bad + 1 < MaxHard /\ PStateOk(PEff(st, e))
+                     THEN st' = PEff(st, e) /\ bad' = bad + 1
+                     ELSE bad' = MaxHard /\ UNCHANGED st
 
 TraceSpec == TraceInit /\ [][TraceNext]_vars
-TraceInv == bad # 0 \/ PStateOk(st)
+TraceInv == bad >= MaxHard \/ PStateOk(st)
 
 Post ==
   /\ PrintT(<<"VERIF_BAD", ToJson(TLCGet(1))>>)
